@@ -184,6 +184,10 @@ class CallMixin(ExecBase):
 
     def inline(s, p, fi, args, kwargs, closure, node):
         if fi.is_generator():
+            if s.unit.options.get("opaque_generators"):
+                # calling a generator function runs nothing: an opaque generator object (its effects happen at send/next,
+                # which the unit models as oracles)
+                return [("ok", p, SV(p.new_obj("generator"), ty="generator", genfn=fi))]
             raise Unsupported(f"inlining generator function {fi.name}")
         if len(s.func_stack) > 12:
             raise Unsupported("inline depth")
